@@ -113,6 +113,10 @@ def handle : List String → String
     match pStr loc, pOptStr br, pOptBytes rf with
     | some loc, some br, some rf => sExcept sStr (gitUrlToBzrUrl loc br rf)
     | _, _, _ => "bad-op"
+  | ["g2bL", loc, br, rf] =>
+    match pStr loc, pOptStr br, pOptBytes rf with
+    | some loc, some br, some rf => sExcept sStr (gitUrlToBzrUrlLegacy loc br rf)
+    | _, _, _ => "bad-op"
   | ["b2g", u] =>
     match pStr u with
     | some u => sExcept (fun x => sStr x.1 ++ " " ++ sOptStr x.2.1 ++ " " ++ sOptBytes x.2.2) (bzrUrlToGitUrl u)
